@@ -343,5 +343,6 @@ LEVEL_TEXT = ("Generated-input search: 20,000 (quick) / 400,000 (thorough) opera
               "carry and borrow chains of every length and the evidence reports which (carry, digit, operand, "
               "position) states of the digit-serial algorithms were reached. Exploration, not proof: the functions "
               "are digit-serial, so reaching all local states at all position classes is the strongest argument "
-              "this family can give.")
+              "this family can give."
+              ' 320 / 3,200 concurrent schedules (2..4 threads, one-microsecond switch interval) must give exact results in every thread.')
 LEVEL_NOTE = "Trusted: Python int arithmetic and str(); inputs restricted to canonical strings and one-digit operands."
